@@ -37,7 +37,7 @@ func genMulti(t *Tape) *multiCase {
 		if t.Draw(2) == 1 {
 			d.Name += " " + longPool[i]
 		}
-		d.Kind = []ValKind{KBool, KBool, KBool, KBool, KString, KString, KInt, KStrings, KStrings, KInts}[t.Draw(10)]
+		d.Kind = []ValKind{KBool, KBool, KBool, KBool, KString, KString, KInt, KStrings, KStrings, KInts, KInts, KFloats, KFloats}[t.Draw(13)]
 		ek := elemKind(d.Kind)
 		if t.Draw(2) == 1 {
 			if d.Kind.IsList() {
@@ -55,20 +55,34 @@ func genMulti(t *Tape) *multiCase {
 		ds.Opts = append(ds.Opts, d)
 	}
 	// two list options sharing one default object
-	var lists []*Decl
-	for _, d := range ds.Opts {
-		if d.Kind == KStrings {
-			lists = append(lists, d)
+	for _, lk := range []ValKind{KStrings, KInts, KFloats} {
+		var lists []*Decl
+		for _, d := range ds.Opts {
+			if d.Kind == lk {
+				lists = append(lists, d)
+			}
 		}
-	}
-	if len(lists) >= 2 && t.Draw(2) == 1 {
-		if len(lists[0].DefList) == 0 {
-			lists[0].DefList = []string{"shared-1", "shared-2"}
+		if len(lists) >= 2 && t.Draw(2) == 1 {
+			if len(lists[0].DefList) == 0 {
+				lists[0].DefList = map[ValKind][]string{KStrings: {"shared-1", "shared-2"}, KInts: {"11", "22"}, KFloats: {"1.5", "2.5"}}[lk]
+			}
+			lists[1].DefList = append([]string(nil), lists[0].DefList...)
+			lists[1].sharedWith = lists[0]
 		}
-		lists[1].DefList = append([]string(nil), lists[0].DefList...)
-		lists[1].sharedWith = lists[0]
 	}
 	hasArg := t.Draw(2) == 1
+	// or several positional arguments in a spec whose distribution of the tokens is unambiguous
+	// (which argument is bound is then known by construction, not by a second parser)
+	var argRow *argDistRow
+	if t.Draw(4) == 0 {
+		hasArg = false
+		argRow = &argDistTable[t.Draw(len(argDistTable))]
+		for _, name := range []string{"A", "B", "C"} {
+			if strings.Contains(argRow.spec, name) {
+				ds.Args = append(ds.Args, &Decl{IsArg: true, Name: name, Kind: KString, Def: "def" + name})
+			}
+		}
+	}
 	if hasArg {
 		ds.Args = []*Decl{{IsArg: true, Name: "X", Kind: KString, Def: "xdef"}}
 	}
@@ -112,6 +126,9 @@ func genMulti(t *Tape) *multiCase {
 	if hasArg {
 		parts = append(parts, "[X]")
 	}
+	if argRow != nil {
+		parts = append(parts, argRow.spec)
+	}
 	c.Spec = strings.Join(parts, " ")
 	// command line
 	s := &sentence{}
@@ -136,6 +153,17 @@ func genMulti(t *Tape) *multiCase {
 		argv = append(argv, "xval")
 		c.Cli[ds.Args[0]] = []string{"xval"}
 	}
+	if argRow != nil {
+		for i, name := range argRow.bound {
+			tok := "p" + fmt.Sprint(i)
+			argv = append(argv, tok)
+			for _, d := range ds.Args {
+				if d.Name == name {
+					c.Cli[d] = []string{tok}
+				}
+			}
+		}
+	}
 	c.Argv = argv
 	c.DS = ds
 	root := &CmdDecl{Name: "app", Spec: c.Spec, Decls: ds.All(), Action: CB{Kind: CBReturn}}
@@ -146,6 +174,12 @@ func genMulti(t *Tape) *multiCase {
 
 // multiExec runs the case and checks either the values (C06) or the SetByUser flags (C15).
 func multiExec(c *multiCase, st *Stats, checkValues bool) *Violation {
+	return multiExecOpt(c, st, checkValues, false)
+}
+
+// multiExecOpt: with skipDefaultLoss the loss of a list default behind an invalid environment value
+// (C06's known finding KF-C06-1) is not this caller's subject and is skipped.
+func multiExecOpt(c *multiCase, st *Stats, checkValues, skipDefaultLoss bool) *Violation {
 	c.Env.Apply()
 	defer EnvState{}.Apply()
 	resetWorld(c.App)
@@ -194,6 +228,10 @@ func multiExec(c *multiCase, st *Stats, checkValues bool) *Violation {
 				if got := snap[key].Val; got != exp {
 					v := &Violation{Clause: "precedence", Detail: fmt.Sprintf("%s holds %s %s, the precedence rule gives %s (the command line gave it %q)", d.Key(), got, where, exp, toks), Expected: exp, Observed: got}
 					if kfC06_1(&contCase{Decl: d, Env: c.Env, CliToks: toks}, got, exp) {
+						if skipDefaultLoss {
+							st.Count("skipped.default_loss_is_C06s_subject")
+							continue
+						}
 						v.Known = "KF-C06-1"
 					}
 					return v
@@ -207,4 +245,25 @@ func multiExec(c *multiCase, st *Stats, checkValues bool) *Violation {
 		}
 	}
 	return nil
+}
+
+// argDistTable: specs over string arguments A, B, C in which a given number of positional tokens can only be
+// distributed one way; bound lists, in order, the arguments that receive the tokens.
+type argDistRow struct {
+	spec  string
+	bound []string
+}
+
+var argDistTable = []argDistRow{
+	{"[A] B", []string{"B"}},
+	{"[A] B", []string{"A", "B"}},
+	{"[A] B C", []string{"B", "C"}},
+	{"[A] B C", []string{"A", "B", "C"}},
+	{"A [B] C", []string{"A", "C"}},
+	{"A [B] C", []string{"A", "B", "C"}},
+	{"A [B]", []string{"A"}},
+	{"A [B]", []string{"A", "B"}},
+	{"[A | B] C", []string{"C"}},
+	{"[A B] C", []string{"C"}},
+	{"[A B] C", []string{"A", "B", "C"}},
 }
